@@ -721,45 +721,65 @@ pub proof fn lemma_frame_fixed(s: Raw, t: Raw, sender: Addr, b: &BlockInfo, msg:
     }
 }
 
+pub open spec fn c05_post(s: Raw, t: Raw, b: &BlockInfo, msg: ExecuteMsg, id: u64) -> bool {
+    (prop(s, id) is Some ==> prop(t, id) is Some && same_content(prop(s, id)->Some_0, prop(t, id)->Some_0)
+        && status_forward(prop(s, id)->Some_0.status, prop(t, id)->Some_0.status))
+    && (prop(s, id) is None && prop(t, id) is Some ==> msg is Propose && id == count(s) + 1 && count(t) == id)
+    && (msg is Execute && msg->Execute_proposal_id == id ==> prop(t, id)->Some_0.status == Status::Executed
+        && spec_status(prop(s, id)->Some_0, b) == Status::Passed)
+    && (msg is Close && msg->Close_proposal_id == id ==> prop(t, id)->Some_0.status == Status::Rejected
+        && prop(s, id)->Some_0.expires.expired(b) && spec_status(prop(s, id)->Some_0, b) != Status::Passed)
+}
+pub proof fn lemma_c05_propose(s: Raw, t: Raw, sender: Addr, b: &BlockInfo, title: String, description: String, msgs: Vec<CosmosMsg<Empty>>, latest: Option<Expiration>, id: u64)
+    requires inv(s), step_propose(s, t, sender, b, title, description, msgs, latest), count(s) < u64::MAX
+    ensures c05_post(s, t, b, ExecuteMsg::Propose { title, description, msgs, latest }, id)
+{
+    let p = new_prop(s, sender, b, title, description, msgs, clamp_expiry(latest, cfg_of(s)->Some_0.max_voting_period.after_spec(b))->Some_0);
+    lemma_propose_preserves(s, sender, p);
+    if prop(s, id) is Some { assert(prop_inv(s, id, prop(s, id)->Some_0)); }
+}
+pub proof fn lemma_c05_vote(s: Raw, t: Raw, sender: Addr, b: &BlockInfo, proposal_id: u64, vote: Vote, id: u64)
+    requires inv(s), step_vote(s, t, sender@, b, proposal_id, vote)
+    ensures c05_post(s, t, b, ExecuteMsg::Vote { proposal_id, vote }, id)
+{
+    broadcast use cw3_axioms;
+    lemma_ns3();
+    let p = prop(s, proposal_id)->Some_0;
+    let p2 = voted_prop(p, vote, voter_of(s, sender@)->Some_0, b);
+    assert(unpath(pkey(id)) != unpath(bkey(proposal_id, sender@)));
+    if id != proposal_id {
+        assert(u64_unkb(u64_kb(id)) != u64_unkb(u64_kb(proposal_id)));
+        assert(unpath(pkey(id)) != unpath(pkey(proposal_id)));
+        assert(prop(t, id) == prop(s, id));
+    } else {
+        assert(prop(t, id) == Some(p2));
+    }
+}
+pub proof fn lemma_c05_execute(s: Raw, t: Raw, b: &BlockInfo, proposal_id: u64, id: u64)
+    requires inv(s), step_execute(s, t, b, proposal_id)
+    ensures c05_post(s, t, b, ExecuteMsg::Execute { proposal_id }, id)
+{
+    lemma_prop_write(s, proposal_id, Proposal { status: Status::Executed, ..prop(s, proposal_id)->Some_0 });
+}
+pub proof fn lemma_c05_close(s: Raw, t: Raw, b: &BlockInfo, proposal_id: u64, id: u64)
+    requires inv(s), step_close(s, t, b, proposal_id)
+    ensures c05_post(s, t, b, ExecuteMsg::Close { proposal_id }, id)
+{
+    lemma_prop_write(s, proposal_id, Proposal { status: Status::Rejected, ..prop(s, proposal_id)->Some_0 });
+}
+
 // serves: C05
 /// C05, per step and per proposal id: content, threshold, total and expiry are fixed at creation; the stored status only moves
 /// forward; a new proposal gets the next id; Execute leaves Executed, Close leaves Rejected
 pub proof fn lemma_c05_step(s: Raw, t: Raw, sender: Addr, b: &BlockInfo, msg: ExecuteMsg, id: u64)
     requires inv(s), exec_post(s, t, sender, b, msg), count(s) < u64::MAX
-    ensures
-        prop(s, id) is Some ==> prop(t, id) is Some && same_content(prop(s, id)->Some_0, prop(t, id)->Some_0)
-            && status_forward(prop(s, id)->Some_0.status, prop(t, id)->Some_0.status),
-        prop(s, id) is None && prop(t, id) is Some ==> msg is Propose && id == count(s) + 1 && count(t) == id,
-        msg is Execute && msg->Execute_proposal_id == id ==> prop(t, id)->Some_0.status == Status::Executed
-            && spec_status(prop(s, id)->Some_0, b) == Status::Passed,
-        msg is Close && msg->Close_proposal_id == id ==> prop(t, id)->Some_0.status == Status::Rejected
-            && prop(s, id)->Some_0.expires.expired(b) && spec_status(prop(s, id)->Some_0, b) != Status::Passed,
+    ensures c05_post(s, t, b, msg, id)
 {
-    broadcast use cw3_axioms;
-    lemma_ns3();
     match msg {
-        ExecuteMsg::Propose { title, description, msgs, latest } => {
-            let p = new_prop(s, sender, b, title, description, msgs, clamp_expiry(latest, cfg_of(s)->Some_0.max_voting_period.after_spec(b))->Some_0);
-            lemma_propose_preserves(s, sender, p);
-            if prop(s, id) is Some { assert(prop_inv(s, id, prop(s, id)->Some_0)); }
-        }
-        ExecuteMsg::Vote { proposal_id, vote } => {
-            let p = prop(s, proposal_id)->Some_0;
-            let p2 = voted_prop(p, vote, voter_of(s, sender@)->Some_0, b);
-            assert(unpath(pkey(id)) != unpath(bkey(proposal_id, sender@)));
-            if id != proposal_id {
-                assert(u64_unkb(u64_kb(id)) != u64_unkb(u64_kb(proposal_id)));
-                assert(unpath(pkey(id)) != unpath(pkey(proposal_id)));
-            } else {
-                assert(prop(t, id) == Some(p2));
-            }
-        }
-        ExecuteMsg::Execute { proposal_id } => {
-            lemma_prop_write(s, proposal_id, Proposal { status: Status::Executed, ..prop(s, proposal_id)->Some_0 });
-        }
-        ExecuteMsg::Close { proposal_id } => {
-            lemma_prop_write(s, proposal_id, Proposal { status: Status::Rejected, ..prop(s, proposal_id)->Some_0 });
-        }
+        ExecuteMsg::Propose { title, description, msgs, latest } => { lemma_c05_propose(s, t, sender, b, title, description, msgs, latest, id); }
+        ExecuteMsg::Vote { proposal_id, vote } => { lemma_c05_vote(s, t, sender, b, proposal_id, vote, id); }
+        ExecuteMsg::Execute { proposal_id } => { lemma_c05_execute(s, t, b, proposal_id, id); }
+        ExecuteMsg::Close { proposal_id } => { lemma_c05_close(s, t, b, proposal_id, id); }
     }
 }
 
